@@ -27,7 +27,7 @@ TStep ==
           IN /\ UNCHANGED nskip
              /\ IF allowed # {}
                 THEN LET o == CHOOSE o \in allowed : TRUE IN
-                     /\ st' = AsState(o) /\ UNCHANGED nbad /\ last' = [op |-> e.op, p |-> e.p, q |-> e.q, k |-> e.k, o |-> o]
+                     /\ st' = Concrete(o, e) /\ UNCHANGED nbad /\ last' = [op |-> e.op, p |-> e.p, q |-> e.q, k |-> e.k, o |-> o]
                      /\ lost' = IF e.op \in {"dopen", "dclose"} THEN 0 ELSE lost
                 ELSE /\ PrintT(<<"MISMATCH", l, e.op>>)
                      /\ st' = [tree |-> SafeTree(e), h |-> IF e.op \in {"dopen", "dread"} THEN Closed ELSE st.h, u |-> e.u]
